@@ -377,3 +377,116 @@ JRACE = Harness(
     stubs=STUBS_COMMON,
 )
 HARNESSES.append(JRACE)
+
+
+# ------------------------------------------------------------------------------ K-closing
+def closing_params(tier):
+    return [P("nested", 0, 1), P("how", 0, 2), P("explicit", 0, 1), P("fasync", 0, 1)]
+
+
+def _closing(a, tier, prop="C02"):
+    """While a context is being torn down it is still usable: what it resolved earlier is what it resolves now (C03), and a context created
+    from one of its teardown callbacks is its child and sees what it sees (C02)."""
+    from asphalt.core import context_teardown, current_context
+
+    nested, how, explicit, fasync = pick(a["nested"], 2), pick(a["how"], 3), pick(a["explicit"], 2), pick(a["fasync"], 2)
+    out = {}
+    made = []
+    static, late = object(), object()
+
+    def sfac():
+        made.append(1)
+        return ("generated", len(made))
+
+    async def afac():
+        made.append(1)
+        await anyio.sleep(0)
+        return ("generated", len(made))
+
+    async def during_teardown():
+        ctx = current_context()
+        out["current_is_the_closing_context"] = ctx is out["ctx"]
+        ctx.add_resource(late, "late", [RT[2]])
+        out["again"] = [await ctx.get_resource(RT[1], "gen"), ctx.get_resource_nowait(RT[1], "gen"), ctx.get_resources(RT[1]).get("gen")]
+        child = Context(ctx) if explicit else Context()
+        out["child_parent"] = child.parent
+        async with child:
+            out["child_view"] = [dict(child.get_resources(RT[i])) for i in range(3)]
+            out["own_view"] = [dict(ctx.get_resources(RT[i])) for i in range(3)]
+            try:
+                out["child_gen"] = await child.get_resource(RT[1], "gen")
+            except Exception as e:  # noqa
+                out["child_gen"] = e
+
+    @context_teardown
+    async def managed():
+        yield
+        await during_teardown()
+
+    async def block():
+        async with Context() as ctx:
+            out["ctx"] = ctx
+            ctx.add_resource(static, "static", [RT[0]])
+            ctx.add_resource_factory(afac if fasync else sfac, "gen", types=[RT[1]])
+            out["first"] = await ctx.get_resource(RT[1], "gen")
+            if how == 0:
+                ctx.add_teardown_callback(lambda: during_teardown())
+            elif how == 1:
+                ctx.add_teardown_callback(during_teardown)
+            else:
+                await managed()
+
+    async def main():
+        if nested:
+            async with Context() as root:
+                root.add_resource(object(), "root", [RT[0]])
+                await block()
+        else:
+            await block()
+
+    _, exc, _k = run(main)
+    summary = {"closing_context": "nested" if nested else "root", "code_running_during_teardown": ["sync callback returning a coroutine", "async callback", "@context_teardown generator"][how],
+               "child_created_with": "Context(closing_ctx)" if explicit else "Context()", "factory": "async" if fasync else "sync"}
+    if exc is not None:
+        return FAIL(f"closing:raised:{type(flatten_one(exc)).__name__}", repr(exc), summary)
+    if prop == "C03":
+        if any(x is not out["first"] for x in out["again"]) or len(made) < 1:
+            return FAIL("closing:pair-resolved-to-another-object-during-teardown", f"first={out['first']!r} during teardown={out['again']!r} factory calls={len(made)}", summary)
+        return OK(summary, True)
+    if not out.get("current_is_the_closing_context"):
+        return FAIL("closing:current-context-during-teardown", "", summary)
+    if out["child_parent"] is not out["ctx"]:
+        return FAIL("closing:child-created-during-teardown-has-another-parent", repr(out["child_parent"]), summary)
+    exp0 = {"static": static}
+    if nested:
+        exp0 = dict(out["own_view"][0])
+    if out["child_view"][0] != out["own_view"][0] or out["child_view"][2] != {"late": late} or "static" not in out["child_view"][0]:
+        return FAIL("closing:child-created-during-teardown-does-not-see-its-parents-resources", f"child={out['child_view']} parent={out['own_view']}", summary)
+    if out["child_view"][1] != {}:
+        return FAIL("closing:child-inherited-a-generated-resource", f"{out['child_view'][1]}", summary)
+    if isinstance(out["child_gen"], Exception) or out["child_gen"] is out["first"]:
+        return FAIL("closing:child-cannot-use-the-parents-factory-or-shares-its-product", repr(out["child_gen"]), summary)
+    return OK(summary, True)
+
+
+def flatten_one(e):
+    while isinstance(e, BaseExceptionGroup) and e.exceptions:
+        e = e.exceptions[0]
+    return e
+
+
+KCLOSING = Harness(
+    prop="C02",
+    name="K-closing",
+    fn=guard(lambda a, tier: _closing(a, tier, "C02")),
+    params=closing_params,
+    cube=lambda tier: 0,
+    title="a context created from a teardown callback of a context that is being torn down",
+    bound_text=lambda tier: "closing context root / nested; code run by a sync callback returning a coroutine / an async callback / the second half of a @context_teardown generator; "
+    "child made with Context() / Context(closing_ctx); the closing context holds a static resource, a sync / async factory already used once, and adds a resource during teardown",
+    oracle="the child's parent is the closing context; it sees exactly the closing context's static resources (incl. the one added during teardown), not its generated one, and can "
+    "generate its own from the inherited factory",
+    outside="-",
+    stubs=STUBS_COMMON,
+)
+HARNESSES.append(KCLOSING)
